@@ -8,7 +8,7 @@ from .core import Prop, bits2f, exc_class
 
 CONTAINERS = ["list_int", "list_float", "tuple_int", "np_int64", "np_int32", "np_float64", "pl_int", "pl_float", "list_mixed",
               "np_uint8", "np_uint32", "pl_uint32", "np_int8", "list_mixed_int_first"]
-ENTRY = ["score", "score", "ident", "decompose", "bias", "marginal", "iso"]
+ENTRY = ["score", "score", "ident", "decompose", "bias", "marginal", "iso", "isomodel"]
 
 
 def conv(vals, container):
@@ -151,10 +151,13 @@ class C17(Prop):
                     c["y"] = [rng.randint(0, 1) for _ in range(n)]
                     c["z"] = [1] * n if rng.random() < 0.1 else c["z"]
                     c["zscale"] = 16
-            elif ep in ("ident", "iso"):
+            elif ep in ("ident", "iso", "isomodel"):
                 c.update(f=rng.choice(["mean", "median", "expectile", "quantile"]), level=rng.choice([0.5, 0.25, 0.75]))
-                if ep == "iso" and c["f"] in ("quantile", "median"):
+                if ep in ("iso", "isomodel") and c["f"] in ("quantile", "median"):
                     c["w"] = None
+                if ep == "isomodel":
+                    # the fitted model evaluated at new, non-integer points between (and outside) the training points
+                    c["query"] = [rng.randint(-2, 2 * max(c["z"]) + 2) / 2 + rng.choice([0.0, 0.25]) for _ in range(6)]
             elif ep == "decompose":
                 c.update(kind=rng.choice(["squared_error", "poisson", "poisson", "pinball", "hes"]), h=rng.choice([2, 1, 3]), level=rng.choice([0.5, 0.25]))
                 if c["kind"] == "pinball":
@@ -220,6 +223,11 @@ class C17(Prop):
             from model_diagnostics._utils.isotonic import isotonic_regression
 
             return {"vals": flat(isotonic_regression(y, w, functional=case["f"], level=case["level"]))}
+        if ep == "isomodel":
+            from model_diagnostics._utils.isotonic import IsotonicRegression
+
+            m = IsotonicRegression(functional=case["f"], level=case["level"]).fit(z, y, sample_weight=w)
+            return {"vals": flat(m.predict(np.array(case["query"], dtype=float))) + flat(m.predict(z))}
         if ep == "decompose":
             from model_diagnostics.scoring import decompose
 
